@@ -1,1 +1,1160 @@
-fn main() { verif_common::machinery_error("engine not built yet"); }
+//! rt_config — property C18: configuration sources merge with the documented precedence.
+//!
+//! Exhaustive enumeration of (key -> subset of sources) assignments x profile x way the profile is
+//! supplied x configuration directory placement x target struct, each case executed by the real
+//! `pavex::config::ConfigLoader::load` in a fresh child process (this same binary, `--child`)
+//! whose environment is `env_clear` + the `PX_*` variables of the case and whose cwd is a scratch
+//! directory under /verif/work/rt_config/.  The outcome is compared with a tiny reference model
+//! (`expect`).
+use pavex::config::{ConfigLoader, ConfigProfile};
+use serde::{Deserialize, Serialize};
+use serde_json::{Value, json};
+use std::collections::{BTreeMap, BTreeSet};
+use std::path::{Path, PathBuf};
+use std::process::Command;
+use std::sync::atomic::{AtomicUsize, Ordering};
+
+const SCRATCH: &str = "/verif/work/rt_config";
+const WORKERS: usize = 16;
+
+// ---------------------------------------------------------------------------------------------
+// Subject-side types (what an application would write)
+// ---------------------------------------------------------------------------------------------
+
+#[derive(ConfigProfile, Debug, Clone, Copy, PartialEq, Eq)]
+pub enum Profile {
+    #[px(profile = "dev")]
+    Development,
+    #[px(profile = "prod")]
+    Production,
+}
+
+#[derive(Debug, Deserialize)]
+struct OptB {
+    c: Option<String>,
+    d: Option<u64>,
+}
+#[derive(Debug, Deserialize)]
+struct OptCfg {
+    a: Option<String>,
+    b: Option<OptB>,
+}
+#[derive(Debug, Deserialize)]
+struct ReqB {
+    c: String,
+    d: u64,
+}
+#[derive(Debug, Deserialize)]
+struct ReqCfg {
+    a: String,
+    b: ReqB,
+}
+#[derive(Debug, Deserialize)]
+#[serde(deny_unknown_fields)]
+struct DenyB {
+    c: Option<String>,
+    d: Option<u64>,
+}
+#[derive(Debug, Deserialize)]
+#[serde(deny_unknown_fields)]
+struct DenyCfg {
+    a: Option<String>,
+    b: Option<DenyB>,
+}
+/// Like `OptCfg` plus a field literally called `profile`: `PX_PROFILE` must never populate it.
+#[derive(Debug, Deserialize)]
+struct ProbeCfg {
+    a: Option<String>,
+    b: Option<OptB>,
+    profile: Option<Value>,
+}
+
+// ---------------------------------------------------------------------------------------------
+// Case description
+// ---------------------------------------------------------------------------------------------
+
+const BASE: u8 = 1;
+const PROF: u8 = 2;
+const ENV: u8 = 4;
+const KEYS: [&str; 3] = ["a", "b.c", "b.d"];
+const ENV_NAMES: [&str; 3] = ["PX_A", "PX_B__C", "PX_B__D"];
+
+#[derive(Debug, Clone, Copy, PartialEq, Eq, Hash, PartialOrd, Ord, Serialize, Deserialize)]
+#[serde(rename_all = "kebab-case")]
+enum PMode {
+    /// `PX_PROFILE=<profile>`, no `.profile()` call
+    EnvValid,
+    /// `.profile(p)`, `PX_PROFILE` unset
+    Explicit,
+    /// `.profile(p)`, `PX_PROFILE=<the other profile>`
+    ExplicitEnvOther,
+    /// `.profile(p)`, `PX_PROFILE=staging` (not a valid profile)
+    ExplicitEnvInvalid,
+    /// no `.profile()`, `PX_PROFILE` unset  => Err
+    NoneUnset,
+    /// no `.profile()`, `PX_PROFILE=staging` => Err
+    NoneInvalid,
+    /// no `.profile()`, `PX_PROFILE=` (empty) => Err
+    NoneEmpty,
+}
+const PMODES_OK: [PMode; 4] = [
+    PMode::EnvValid,
+    PMode::Explicit,
+    PMode::ExplicitEnvOther,
+    PMode::ExplicitEnvInvalid,
+];
+const PMODES_ERR: [PMode; 3] = [PMode::NoneUnset, PMode::NoneInvalid, PMode::NoneEmpty];
+
+#[derive(Debug, Clone, Copy, PartialEq, Eq, Hash, PartialOrd, Ord, Serialize, Deserialize)]
+#[serde(rename_all = "kebab-case")]
+enum DMode {
+    /// default dir name (`configuration`, no `.configuration_dir()` call), found in cwd
+    RelCwdDefault,
+    /// `.configuration_dir("settings")`, found in cwd
+    RelCwdNamed,
+    /// default dir name, absent from cwd, found in the parent of cwd
+    RelParentDefault,
+    /// `.configuration_dir("settings")`, absent from cwd and its parent, found in the grandparent
+    RelGrandparentNamed,
+    /// `.configuration_dir("/abs/…/cfg")`
+    Absolute,
+}
+const DMODES: [DMode; 5] = [
+    DMode::RelCwdDefault,
+    DMode::RelCwdNamed,
+    DMode::RelParentDefault,
+    DMode::RelGrandparentNamed,
+    DMode::Absolute,
+];
+
+#[derive(Debug, Clone, Copy, PartialEq, Eq, Hash, PartialOrd, Ord, Serialize, Deserialize)]
+#[serde(rename_all = "kebab-case")]
+enum Target {
+    Option,
+    Required,
+    DenyUnknown,
+    ProbeProfileField,
+}
+const TARGETS: [Target; 4] = [
+    Target::Option,
+    Target::Required,
+    Target::DenyUnknown,
+    Target::ProbeProfileField,
+];
+
+#[derive(Debug, Clone, Copy, PartialEq, Eq, Hash, PartialOrd, Ord, Serialize, Deserialize)]
+#[serde(rename_all = "kebab-case")]
+enum FMode {
+    /// base.yml and <profile>.yml both exist (`{}` when no key is assigned to them); a decoy
+    /// directory of the same name with different values sits one level further up.
+    All,
+    /// <profile>.yml does not exist (no key assigned to it). No decoy.
+    NoProfileFile,
+    /// base.yml does not exist (no key assigned to it). No decoy.
+    NoBaseFile,
+    /// neither exists, the directory does. No decoy.
+    NoFiles,
+    /// the configuration directory does not exist anywhere. No decoy.
+    NoDir,
+    /// nearest directory holds only base.yml, the next one up holds only <profile>.yml
+    /// (observation only: the docs say the search stops at the first matching directory).
+    SplitDir,
+}
+
+#[derive(Debug, Clone, PartialEq, Eq, Hash, PartialOrd, Ord, Serialize, Deserialize)]
+struct Case {
+    /// bitmask per key (a, b.c, b.d): 1 = base.yml, 2 = <profile>.yml, 4 = env
+    assign: [u8; 3],
+    profile: String,
+    pmode: PMode,
+    dmode: DMode,
+    target: Target,
+    files: FMode,
+    /// machinery control: adds `PX_ZZZ=1` (an unknown key) to the environment
+    #[serde(default)]
+    control_unknown_env: bool,
+}
+
+fn other_profile(p: &str) -> &'static str {
+    if p == "dev" { "prod" } else { "dev" }
+}
+
+/// Source-tagged distinct values. `tag` in base|profile|env|other|decoy|staging
+fn sval(key: usize, tag: &str) -> Value {
+    match key {
+        0 => json!(format!("a-{tag}")),
+        1 => json!(format!("c-{tag}")),
+        _ => json!(match tag {
+            "base" => 11u64,
+            "profile" => 22,
+            "env" => 33,
+            "other" => 44,
+            "decoy" => 55,
+            "staging" => 66,
+            _ => 99,
+        }),
+    }
+}
+
+fn tag_of(key: usize, v: &Value) -> String {
+    if v.is_null() {
+        return "none".into();
+    }
+    for t in ["base", "profile", "env", "other", "decoy", "staging"] {
+        if &sval(key, t) == v {
+            return t.into();
+        }
+    }
+    "unrecognised".into()
+}
+
+fn yaml_doc(vals: [Option<Value>; 3]) -> String {
+    let mut s = String::new();
+    if let Some(a) = &vals[0] {
+        s += &format!("a: {a}\n");
+    }
+    if vals[1].is_some() || vals[2].is_some() {
+        s += "b:\n";
+        if let Some(c) = &vals[1] {
+            s += &format!("  c: {c}\n");
+        }
+        if let Some(d) = &vals[2] {
+            s += &format!("  d: {d}\n");
+        }
+    }
+    if s.is_empty() {
+        s = "{}\n".into();
+    }
+    s
+}
+
+fn yaml_tagged(assign: &[u8; 3], bit: u8, tag: &str) -> String {
+    let mut vals = [None, None, None];
+    for k in 0..3 {
+        if assign[k] & bit != 0 {
+            vals[k] = Some(sval(k, tag));
+        }
+    }
+    yaml_doc(vals)
+}
+
+fn yaml_all(tag: &str) -> String {
+    yaml_doc([Some(sval(0, tag)), Some(sval(1, tag)), Some(sval(2, tag))])
+}
+
+// ---------------------------------------------------------------------------------------------
+// Scratch layout + environment of a case
+// ---------------------------------------------------------------------------------------------
+
+struct Setup {
+    cwd: PathBuf,
+    /// argument for `.configuration_dir(..)`, None = do not call it
+    confdir_arg: Option<String>,
+    env: Vec<(String, String)>,
+    /// argument for `.profile(..)`
+    explicit: Option<String>,
+    /// (path, content) of every file written, for the replay artefact
+    files: Vec<(String, String)>,
+}
+
+/// `write` = false: the file belongs to the static part of an already prepared tree, only list it.
+fn mkfile(files: &mut Vec<(String, String)>, write: bool, dir: &Path, name: &str, content: String) {
+    let p = dir.join(name);
+    if write {
+        if let Err(e) = std::fs::create_dir_all(dir) {
+            verif_common::machinery_error(&format!("mkdir {}: {e}", dir.display()));
+        }
+        if let Err(e) = std::fs::write(&p, &content) {
+            verif_common::machinery_error(&format!("write {}: {e}", p.display()));
+        }
+    }
+    files.push((p.display().to_string(), content));
+}
+
+fn dmode_name(d: DMode) -> String {
+    json!(d).as_str().unwrap_or("?").to_string()
+}
+
+/// Prepare the scratch tree of a case below `root` (a directory owned by the calling worker).
+/// For `FMode::All` (the bulk of the run) the tree `root/all-<dmode>` is kept between cases: its
+/// static part (directories, decoy directory, staging.yml) is written once, and the three files
+/// that depend on the case (base.yml, dev.yml, prod.yml of the real directory) are rewritten for
+/// every case. Every other family gets a tree rebuilt from nothing (`root/misc`).
+fn setup(case: &Case, root: &Path) -> Setup {
+    let persistent = case.files == FMode::All;
+    let tree = if persistent {
+        root.join(format!("all-{}", dmode_name(case.dmode)))
+    } else {
+        let t = root.join("misc");
+        if t.exists()
+            && let Err(e) = std::fs::remove_dir_all(&t)
+        {
+            verif_common::machinery_error(&format!("cannot clean {}: {e}", t.display()));
+        }
+        t
+    };
+    let ready_marker = tree.join(".ready");
+    let write_static = !(persistent && ready_marker.exists());
+    let g = tree.join("g");
+    let p = g.join("p");
+    let cwd = p.join("cwd");
+    if write_static
+        && let Err(e) = std::fs::create_dir_all(&cwd)
+    {
+        verif_common::machinery_error(&format!("mkdir {}: {e}", cwd.display()));
+    }
+    let (name, confdir_arg): (&str, Option<String>) = match case.dmode {
+        DMode::RelCwdDefault | DMode::RelParentDefault => ("configuration", None),
+        DMode::RelCwdNamed | DMode::RelGrandparentNamed => ("settings", Some("settings".into())),
+        DMode::Absolute => ("cfg", Some(tree.join("abs").join("cfg").display().to_string())),
+    };
+    // `real` = where the loader is supposed to find the files; `up` = one search step further
+    let (real, up): (PathBuf, PathBuf) = match case.dmode {
+        DMode::RelCwdDefault | DMode::RelCwdNamed => (cwd.join(name), p.join(name)),
+        DMode::RelParentDefault => (p.join(name), g.join(name)),
+        DMode::RelGrandparentNamed => (g.join(name), tree.join(name)),
+        // absolute: the decoy is the default relative directory in cwd
+        DMode::Absolute => (tree.join("abs").join("cfg"), cwd.join("configuration")),
+    };
+    let mut files = Vec::new();
+    let prof = case.profile.as_str();
+    let other = other_profile(prof);
+    let base_doc = yaml_tagged(&case.assign, BASE, "base");
+    let prof_doc = yaml_tagged(&case.assign, PROF, "profile");
+    match case.files {
+        FMode::All => {
+            mkfile(&mut files, true, &real, "base.yml", base_doc);
+            mkfile(&mut files, true, &real, &format!("{prof}.yml"), prof_doc);
+            mkfile(&mut files, true, &real, &format!("{other}.yml"), yaml_all("other"));
+            mkfile(&mut files, write_static, &real, "staging.yml", yaml_all("staging"));
+            for f in ["base.yml", "dev.yml", "prod.yml", "staging.yml"] {
+                mkfile(&mut files, write_static, &up, f, yaml_all("decoy"));
+            }
+        }
+        FMode::NoProfileFile => {
+            mkfile(&mut files, true, &real, "base.yml", base_doc);
+            mkfile(&mut files, true, &real, &format!("{other}.yml"), yaml_all("other"));
+            mkfile(&mut files, true, &real, "staging.yml", yaml_all("staging"));
+        }
+        FMode::NoBaseFile => {
+            mkfile(&mut files, true, &real, &format!("{prof}.yml"), prof_doc);
+            mkfile(&mut files, true, &real, &format!("{other}.yml"), yaml_all("other"));
+            mkfile(&mut files, true, &real, "staging.yml", yaml_all("staging"));
+        }
+        FMode::NoFiles => {
+            mkfile(&mut files, true, &real, &format!("{other}.yml"), yaml_all("other"));
+            mkfile(&mut files, true, &real, "staging.yml", yaml_all("staging"));
+        }
+        FMode::NoDir => {}
+        FMode::SplitDir => {
+            mkfile(&mut files, true, &real, "base.yml", base_doc);
+            mkfile(&mut files, true, &up, &format!("{prof}.yml"), prof_doc);
+        }
+    }
+    if persistent
+        && write_static
+        && let Err(e) = std::fs::write(&ready_marker, "")
+    {
+        verif_common::machinery_error(&format!("write {}: {e}", ready_marker.display()));
+    }
+    let mut env: Vec<(String, String)> = Vec::new();
+    for k in 0..3 {
+        if case.assign[k] & ENV != 0 {
+            let v = sval(k, "env");
+            let s = match &v {
+                Value::String(s) => s.clone(),
+                other => other.to_string(),
+            };
+            env.push((ENV_NAMES[k].to_string(), s));
+        }
+    }
+    let px_profile: Option<String> = match case.pmode {
+        PMode::EnvValid => Some(prof.to_string()),
+        PMode::Explicit | PMode::NoneUnset => None,
+        PMode::ExplicitEnvOther => Some(other.to_string()),
+        PMode::ExplicitEnvInvalid | PMode::NoneInvalid => Some("staging".into()),
+        PMode::NoneEmpty => Some(String::new()),
+    };
+    if let Some(v) = px_profile {
+        env.push(("PX_PROFILE".into(), v));
+    }
+    if case.control_unknown_env {
+        env.push(("PX_ZZZ".into(), "1".into()));
+    }
+    env.sort();
+    let explicit = match case.pmode {
+        PMode::Explicit | PMode::ExplicitEnvOther | PMode::ExplicitEnvInvalid => {
+            Some(prof.to_string())
+        }
+        _ => None,
+    };
+    Setup {
+        cwd,
+        confdir_arg,
+        env,
+        explicit,
+        files,
+    }
+}
+
+// ---------------------------------------------------------------------------------------------
+// Child: run the real loader once
+// ---------------------------------------------------------------------------------------------
+
+fn error_chain(e: &dyn std::error::Error) -> String {
+    let mut s = e.to_string();
+    let mut cur = e.source();
+    while let Some(c) = cur {
+        s += " | ";
+        s += &c.to_string();
+        cur = c.source();
+    }
+    s
+}
+
+fn child_main(argv: &[String]) -> ! {
+    // argv: <target> <explicit-profile|-> <confdir|->
+    let target = argv.first().cloned().unwrap_or_default();
+    let explicit = argv.get(1).cloned().unwrap_or_else(|| "-".into());
+    let confdir = argv.get(2).cloned().unwrap_or_else(|| "-".into());
+    let run = move || -> Value {
+        let mut loader = ConfigLoader::<Profile>::new();
+        match explicit.as_str() {
+            "-" => {}
+            "dev" => loader = loader.profile(Profile::Development),
+            "prod" => loader = loader.profile(Profile::Production),
+            other => return json!({"outcome": "child-usage", "msg": format!("profile {other}")}),
+        }
+        if confdir != "-" {
+            loader = loader.configuration_dir(confdir.clone());
+        }
+        let ob = |c: Option<String>, d: Option<u64>| (json!(c), json!(d));
+        let res: Result<Value, pavex::config::errors::ConfigLoadError> = match target.as_str() {
+            "option" => loader.load::<OptCfg>().map(|c| {
+                let (cc, d) = c.b.map(|b| ob(b.c, b.d)).unwrap_or((Value::Null, Value::Null));
+                json!({"a": c.a, "b.c": cc, "b.d": d, "profile_field": null})
+            }),
+            "required" => loader.load::<ReqCfg>().map(|c| {
+                json!({"a": c.a, "b.c": c.b.c, "b.d": c.b.d, "profile_field": null})
+            }),
+            "deny-unknown" => loader.load::<DenyCfg>().map(|c| {
+                let (cc, d) = c.b.map(|b| ob(b.c, b.d)).unwrap_or((Value::Null, Value::Null));
+                json!({"a": c.a, "b.c": cc, "b.d": d, "profile_field": null})
+            }),
+            "probe-profile-field" => loader.load::<ProbeCfg>().map(|c| {
+                let (cc, d) = c.b.map(|b| ob(b.c, b.d)).unwrap_or((Value::Null, Value::Null));
+                json!({"a": c.a, "b.c": cc, "b.d": d, "profile_field": c.profile})
+            }),
+            other => return json!({"outcome": "child-usage", "msg": format!("target {other}")}),
+        };
+        match res {
+            Ok(v) => json!({"outcome": "ok", "values": v}),
+            Err(e) => json!({"outcome": "err", "chain": error_chain(&e)}),
+        }
+    };
+    std::panic::set_hook(Box::new(|_| {}));
+    let mut out = match std::panic::catch_unwind(run) {
+        Ok(v) => v,
+        Err(p) => {
+            let msg = p
+                .downcast_ref::<String>()
+                .cloned()
+                .or_else(|| p.downcast_ref::<&str>().map(|s| s.to_string()))
+                .unwrap_or_else(|| "<non-string panic>".into());
+            json!({"outcome": "panic", "msg": msg})
+        }
+    };
+    // echo what the child really saw, so the parent can verify the environment was controlled
+    let mut env: Vec<(String, String)> = std::env::vars_os()
+        .map(|(k, v)| (k.to_string_lossy().into_owned(), v.to_string_lossy().into_owned()))
+        .collect();
+    env.sort();
+    out["seen_env"] = json!(env);
+    out["seen_cwd"] = json!(std::env::current_dir().map(|p| p.display().to_string()).unwrap_or_default());
+    println!("{out}");
+    std::process::exit(0)
+}
+
+// ---------------------------------------------------------------------------------------------
+// Parent: execute one case
+// ---------------------------------------------------------------------------------------------
+
+#[derive(Debug, Clone, PartialEq)]
+enum Observed {
+    Ok { vals: [Value; 3], profile_field: Value },
+    Err { chain: String },
+    Panic { msg: String },
+}
+
+impl Observed {
+    fn to_json(&self) -> Value {
+        match self {
+            Observed::Ok { vals, profile_field } => json!({"outcome": "ok", "a": vals[0], "b.c": vals[1], "b.d": vals[2], "profile_field": profile_field}),
+            Observed::Err { chain } => json!({"outcome": "err", "chain": chain}),
+            Observed::Panic { msg } => json!({"outcome": "panic", "msg": msg}),
+        }
+    }
+}
+
+static SPAWNED: AtomicUsize = AtomicUsize::new(0);
+
+fn target_arg(t: Target) -> &'static str {
+    match t {
+        Target::Option => "option",
+        Target::Required => "required",
+        Target::DenyUnknown => "deny-unknown",
+        Target::ProbeProfileField => "probe-profile-field",
+    }
+}
+
+fn run_case(case: &Case, root: &Path, exe: &Path) -> (Observed, Setup) {
+    let su = setup(case, root);
+    let mut cmd = Command::new(exe);
+    cmd.arg("--child")
+        .arg(target_arg(case.target))
+        .arg(su.explicit.as_deref().unwrap_or("-"))
+        .arg(su.confdir_arg.as_deref().unwrap_or("-"))
+        .env_clear()
+        .envs(su.env.iter().map(|(k, v)| (k.as_str(), v.as_str())))
+        .current_dir(&su.cwd)
+        .stdin(std::process::Stdio::null());
+    SPAWNED.fetch_add(1, Ordering::Relaxed);
+    let out = cmd
+        .output()
+        .unwrap_or_else(|e| verif_common::machinery_error(&format!("cannot spawn child: {e}")));
+    if !out.status.success() {
+        verif_common::machinery_error(&format!(
+            "child failed ({:?}) for case {}: stderr={}",
+            out.status,
+            serde_json::to_string(case).unwrap(),
+            String::from_utf8_lossy(&out.stderr)
+        ));
+    }
+    let stdout = String::from_utf8_lossy(&out.stdout);
+    let line = stdout.lines().last().unwrap_or("");
+    let v: Value = serde_json::from_str(line).unwrap_or_else(|e| {
+        verif_common::machinery_error(&format!("child output not JSON ({e}): {stdout}"))
+    });
+    // the child's environment and cwd must be exactly what the case prescribes
+    let seen_env: Vec<(String, String)> = serde_json::from_value(v["seen_env"].clone()).unwrap_or_default();
+    if seen_env != su.env {
+        verif_common::machinery_error(&format!(
+            "child environment not controlled: wanted {:?}, child saw {:?}",
+            su.env, seen_env
+        ));
+    }
+    let want_cwd = std::fs::canonicalize(&su.cwd).unwrap_or(su.cwd.clone());
+    if Path::new(v["seen_cwd"].as_str().unwrap_or("")) != want_cwd {
+        verif_common::machinery_error(&format!(
+            "child cwd not controlled: wanted {}, child saw {}",
+            want_cwd.display(),
+            v["seen_cwd"]
+        ));
+    }
+    let obs = match v["outcome"].as_str() {
+        Some("ok") => Observed::Ok {
+            vals: [
+                v["values"]["a"].clone(),
+                v["values"]["b.c"].clone(),
+                v["values"]["b.d"].clone(),
+            ],
+            profile_field: v["values"]["profile_field"].clone(),
+        },
+        Some("err") => Observed::Err {
+            chain: v["chain"].as_str().unwrap_or("").to_string(),
+        },
+        Some("panic") => Observed::Panic {
+            msg: v["msg"].as_str().unwrap_or("").to_string(),
+        },
+        other => verif_common::machinery_error(&format!("child outcome {other:?}: {line}")),
+    };
+    (obs, su)
+}
+
+// ---------------------------------------------------------------------------------------------
+// Reference model
+// ---------------------------------------------------------------------------------------------
+
+#[derive(Debug, Clone, PartialEq)]
+enum Expect {
+    /// the property forces an error
+    MustErr(&'static str),
+    /// the property forces exactly these values
+    MustOk([Value; 3]),
+    /// a file/directory is missing: the property text and docs force neither Ok nor Err, but if
+    /// the load succeeds the values must still follow the precedence over the sources that exist
+    ErrOrOk([Value; 3]),
+    /// split directory: per key either reading (docs: ancestor profile file not used; code:
+    /// used) is accepted; observation only
+    SplitEither { docs: [Value; 3], code: [Value; 3] },
+}
+
+fn winner(bits: u8) -> &'static str {
+    if bits & ENV != 0 {
+        "env"
+    } else if bits & PROF != 0 {
+        "profile"
+    } else if bits & BASE != 0 {
+        "base"
+    } else {
+        "none"
+    }
+}
+
+fn merged(assign: &[u8; 3], mask: u8) -> [Value; 3] {
+    let mut out = [Value::Null, Value::Null, Value::Null];
+    for k in 0..3 {
+        let w = winner(assign[k] & mask);
+        if w != "none" {
+            out[k] = sval(k, w);
+        }
+    }
+    out
+}
+
+fn expect(case: &Case) -> Expect {
+    match case.pmode {
+        PMode::NoneUnset => return Expect::MustErr("profile-unset"),
+        PMode::NoneInvalid | PMode::NoneEmpty => return Expect::MustErr("profile-invalid"),
+        _ => {}
+    }
+    if case.control_unknown_env && case.target == Target::DenyUnknown {
+        return Expect::MustErr("control-unknown-env-key");
+    }
+    let full = merged(&case.assign, BASE | PROF | ENV);
+    let required_missing = |vals: &[Value; 3]| case.target == Target::Required && vals.iter().any(|v| v.is_null());
+    match case.files {
+        FMode::All => {
+            if required_missing(&full) {
+                Expect::MustErr("required-key-missing")
+            } else {
+                Expect::MustOk(full)
+            }
+        }
+        FMode::SplitDir => {
+            let docs = merged(&case.assign, BASE | ENV);
+            if required_missing(&full) {
+                // missing under both readings
+                Expect::MustErr("required-key-missing")
+            } else {
+                Expect::SplitEither { docs, code: full }
+            }
+        }
+        _ => {
+            if required_missing(&full) {
+                Expect::MustErr("required-key-missing")
+            } else {
+                Expect::ErrOrOk(full)
+            }
+        }
+    }
+}
+
+fn err_class(chain: &str) -> &'static str {
+    let c = chain.to_ascii_lowercase();
+    if c.contains("unknown field") && c.contains("profile") {
+        "unknown-field-profile"
+    } else if c.contains("unknown field") {
+        "unknown-field"
+    } else if c.contains("missing field") {
+        "missing-field"
+    } else if c.contains("not set") {
+        "px-profile-not-set"
+    } else if c.contains("invalid profile") || c.contains("parse the configuration profile") {
+        "px-profile-invalid"
+    } else {
+        "other"
+    }
+}
+
+/// Returns the list of (violation key, description) for one case; empty = conforms.
+fn judge(case: &Case, exp: &Expect, obs: &Observed) -> Vec<(String, String)> {
+    let mut out = Vec::new();
+    let cmp_vals = |out: &mut Vec<(String, String)>, want: &[Value; 3], got: &[Value; 3]| {
+        for k in 0..3 {
+            if want[k] != got[k] {
+                let kind = if k == 0 { "top" } else { "nested" };
+                out.push((
+                    format!("precedence:{kind}:want={}:got={}", tag_of(k, &want[k]), tag_of(k, &got[k])),
+                    format!(
+                        "key `{}` assigned to sources {:?}: reference value {} (from {}), loader produced {} (from {})",
+                        KEYS[k],
+                        sources_of(case.assign[k]),
+                        want[k],
+                        tag_of(k, &want[k]),
+                        got[k],
+                        tag_of(k, &got[k])
+                    ),
+                ));
+            }
+        }
+    };
+    match (exp, obs) {
+        (_, Observed::Panic { msg }) => out.push((
+            "loader-panicked".into(),
+            format!("ConfigLoader::load panicked: {msg}"),
+        )),
+        (Expect::MustErr(reason), Observed::Ok { vals, .. }) => out.push((
+            format!("unexpected-ok:{reason}"),
+            format!("load returned Ok({vals:?}) although the property requires an error ({reason})"),
+        )),
+        (Expect::MustErr(_), Observed::Err { .. }) => {}
+        (Expect::MustOk(want), Observed::Ok { vals, profile_field }) => {
+            cmp_vals(&mut out, want, vals);
+            if !profile_field.is_null() {
+                out.push((
+                    "px-profile-surfaced-as-key".into(),
+                    format!("PX_PROFILE was deserialized into the configuration field `profile` = {profile_field}"),
+                ));
+            }
+        }
+        (Expect::MustOk(_), Observed::Err { chain }) => out.push((
+            format!("unexpected-err:{}", err_class(chain)),
+            format!("load returned Err although every source is well-formed and every needed key is present: {chain}"),
+        )),
+        (Expect::ErrOrOk(want), Observed::Ok { vals, profile_field }) => {
+            cmp_vals(&mut out, want, vals);
+            if !profile_field.is_null() {
+                out.push(("px-profile-surfaced-as-key".into(), format!("field `profile` = {profile_field}")));
+            }
+        }
+        (Expect::ErrOrOk(_), Observed::Err { chain }) => {
+            // acceptable as long as it is not PX_PROFILE leaking into a deny_unknown_fields struct
+            if err_class(chain) == "unknown-field-profile" {
+                out.push(("unexpected-err:unknown-field-profile".into(), chain.clone()));
+            }
+        }
+        (Expect::SplitEither { docs, code }, Observed::Ok { vals, profile_field }) => {
+            for k in 0..3 {
+                if vals[k] != docs[k] && vals[k] != code[k] {
+                    let kind = if k == 0 { "top" } else { "nested" };
+                    out.push((
+                        format!("precedence:{kind}:want={}:got={}", tag_of(k, &code[k]), tag_of(k, &vals[k])),
+                        format!("split directory, key `{}`: got {} ; accepted {} or {}", KEYS[k], vals[k], docs[k], code[k]),
+                    ));
+                }
+            }
+            if !profile_field.is_null() {
+                out.push(("px-profile-surfaced-as-key".into(), format!("field `profile` = {profile_field}")));
+            }
+        }
+        (Expect::SplitEither { .. }, Observed::Err { .. }) => {}
+    }
+    out
+}
+
+fn sources_of(bits: u8) -> Vec<&'static str> {
+    let mut v = Vec::new();
+    if bits & BASE != 0 {
+        v.push("base.yml");
+    }
+    if bits & PROF != 0 {
+        v.push("<profile>.yml");
+    }
+    if bits & ENV != 0 {
+        v.push("env");
+    }
+    v
+}
+
+fn exp_json(e: &Expect) -> Value {
+    match e {
+        Expect::MustErr(r) => json!({"must": "err", "reason": r}),
+        Expect::MustOk(v) => json!({"must": "ok", "a": v[0], "b.c": v[1], "b.d": v[2], "profile_field": null}),
+        Expect::ErrOrOk(v) => json!({"must": "err-or-ok-with", "a": v[0], "b.c": v[1], "b.d": v[2]}),
+        Expect::SplitEither { docs, code } => json!({"must": "either", "docs_reading": docs, "code_reading": code}),
+    }
+}
+
+// ---------------------------------------------------------------------------------------------
+// Enumeration plan
+// ---------------------------------------------------------------------------------------------
+
+fn all_assigns() -> Vec<[u8; 3]> {
+    let mut v = Vec::new();
+    for a in 0..8u8 {
+        for c in 0..8u8 {
+            for d in 0..8u8 {
+                v.push([a, c, d]);
+            }
+        }
+    }
+    v
+}
+
+struct Slice {
+    name: &'static str,
+    assigns: Vec<[u8; 3]>,
+    profiles: Vec<&'static str>,
+    pmodes: Vec<PMode>,
+    dmodes: Vec<DMode>,
+    targets: Vec<Target>,
+    files: FMode,
+}
+
+impl Slice {
+    fn expand(&self, into: &mut BTreeSet<Case>) -> usize {
+        let mut n = 0;
+        for a in &self.assigns {
+            for p in &self.profiles {
+                for pm in &self.pmodes {
+                    for dm in &self.dmodes {
+                        for t in &self.targets {
+                            n += 1;
+                            into.insert(Case {
+                                assign: *a,
+                                profile: p.to_string(),
+                                pmode: *pm,
+                                dmode: *dm,
+                                target: *t,
+                                files: self.files,
+                                control_unknown_env: false,
+                            });
+                        }
+                    }
+                }
+            }
+        }
+        n
+    }
+}
+
+fn plan(tier: verif_common::Tier) -> (Vec<Case>, Vec<Value>) {
+    let all = all_assigns();
+    let without = |bits: u8| -> Vec<[u8; 3]> {
+        all.iter().copied().filter(|a| a.iter().all(|x| x & bits == 0)).collect()
+    };
+    let rel_with_ancestor = vec![DMode::RelCwdDefault, DMode::RelCwdNamed, DMode::RelParentDefault];
+    let both = vec!["dev", "prod"];
+    let mut slices: Vec<Slice> = Vec::new();
+    if tier.is_thorough() {
+        slices.push(Slice { name: "main: full product", assigns: all.clone(), profiles: both.clone(), pmodes: PMODES_OK.to_vec(), dmodes: DMODES.to_vec(), targets: TARGETS.to_vec(), files: FMode::All });
+        slices.push(Slice { name: "profile errors: full product (profile label fixed, it is not used)", assigns: all.clone(), profiles: vec!["dev"], pmodes: PMODES_ERR.to_vec(), dmodes: DMODES.to_vec(), targets: TARGETS.to_vec(), files: FMode::All });
+        for (fm, asg, name) in [
+            (FMode::NoProfileFile, without(PROF), "missing <profile>.yml"),
+            (FMode::NoBaseFile, without(BASE), "missing base.yml"),
+            (FMode::NoFiles, without(BASE | PROF), "missing both files"),
+            (FMode::NoDir, without(BASE | PROF), "missing directory"),
+        ] {
+            slices.push(Slice { name, assigns: asg, profiles: both.clone(), pmodes: vec![PMode::EnvValid, PMode::Explicit], dmodes: DMODES.to_vec(), targets: TARGETS.to_vec(), files: fm });
+        }
+        slices.push(Slice { name: "split directory (observation)", assigns: all.clone(), profiles: both.clone(), pmodes: vec![PMode::EnvValid], dmodes: rel_with_ancestor.clone(), targets: vec![Target::Option, Target::Required], files: FMode::SplitDir });
+    } else {
+        // quick: every slice keeps all 512 assignments (or all compatible ones) and frees one or
+        // two of the other factors, the rest fixed; together every factor value is reached.
+        slices.push(Slice { name: "main/targets x profiles (pmode=env-valid, dmode=rel-cwd-default)", assigns: all.clone(), profiles: both.clone(), pmodes: vec![PMode::EnvValid], dmodes: vec![DMode::RelCwdDefault], targets: TARGETS.to_vec(), files: FMode::All });
+        slices.push(Slice { name: "main/pmodes x targets (profile=prod, dmode=rel-parent-default)", assigns: all.clone(), profiles: vec!["prod"], pmodes: PMODES_OK.to_vec(), dmodes: vec![DMode::RelParentDefault], targets: TARGETS.to_vec(), files: FMode::All });
+        slices.push(Slice { name: "main/dmodes x pmodes{explicit,env-valid} (profile=dev, target=required)", assigns: all.clone(), profiles: vec!["dev"], pmodes: vec![PMode::Explicit, PMode::EnvValid], dmodes: DMODES.to_vec(), targets: vec![Target::Required], files: FMode::All });
+        slices.push(Slice { name: "main/dmodes (profile=prod, pmode=explicit-env-other, target=deny-unknown)", assigns: all.clone(), profiles: vec!["prod"], pmodes: vec![PMode::ExplicitEnvOther], dmodes: DMODES.to_vec(), targets: vec![Target::DenyUnknown], files: FMode::All });
+        slices.push(Slice { name: "profile errors/emodes (dmode=rel-cwd-default, target=option)", assigns: all.clone(), profiles: vec!["dev"], pmodes: PMODES_ERR.to_vec(), dmodes: vec![DMode::RelCwdDefault], targets: vec![Target::Option], files: FMode::All });
+        slices.push(Slice { name: "profile errors/emodes x dmodes x targets (assignment fixed: every key in every source)", assigns: vec![[7, 7, 7]], profiles: vec!["dev"], pmodes: PMODES_ERR.to_vec(), dmodes: DMODES.to_vec(), targets: TARGETS.to_vec(), files: FMode::All });
+        for (fm, asg, name) in [
+            (FMode::NoProfileFile, without(PROF), "missing <profile>.yml (pmode=env-valid)"),
+            (FMode::NoBaseFile, without(BASE), "missing base.yml (pmode=env-valid)"),
+            (FMode::NoFiles, without(BASE | PROF), "missing both files (pmode=env-valid)"),
+            (FMode::NoDir, without(BASE | PROF), "missing directory (pmode=env-valid)"),
+        ] {
+            slices.push(Slice { name, assigns: asg, profiles: vec!["dev"], pmodes: vec![PMode::EnvValid], dmodes: DMODES.to_vec(), targets: TARGETS.to_vec(), files: fm });
+        }
+        slices.push(Slice { name: "split directory (observation; profile=dev, dmode=rel-cwd-default, target=option)", assigns: all.clone(), profiles: vec!["dev"], pmodes: vec![PMode::EnvValid], dmodes: vec![DMode::RelCwdDefault], targets: vec![Target::Option], files: FMode::SplitDir });
+    }
+    let mut set = BTreeSet::new();
+    let mut desc = Vec::new();
+    for s in &slices {
+        let before = set.len();
+        let generated = s.expand(&mut set);
+        desc.push(json!({"slice": s.name, "generated": generated, "new_distinct_cases": set.len() - before}));
+    }
+    (set.into_iter().collect(), desc)
+}
+
+fn control_cases() -> Vec<Case> {
+    ["dev", "prod"]
+        .iter()
+        .map(|p| Case {
+            assign: [7, 7, 7],
+            profile: p.to_string(),
+            // PX_PROFILE is not set in the control, so that it says nothing about PX_PROFILE itself
+            pmode: PMode::Explicit,
+            dmode: DMode::RelCwdDefault,
+            target: Target::DenyUnknown,
+            files: FMode::All,
+            control_unknown_env: true,
+        })
+        .collect()
+}
+
+// ---------------------------------------------------------------------------------------------
+// main
+// ---------------------------------------------------------------------------------------------
+
+fn replay_doc(case: &Case, su: &Setup, exp: &Expect, obs: &Observed) -> Value {
+    json!({
+        "case": case,
+        "environment_of_child": su.env,
+        "cwd_of_child": su.cwd.display().to_string(),
+        "configuration_dir_argument": su.confdir_arg,
+        "explicit_profile_argument": su.explicit,
+        "files": su.files.iter().map(|(p, c)| json!({"path": p, "content": c})).collect::<Vec<_>>(),
+        "expected": exp_json(exp),
+        "observed": obs.to_json(),
+    })
+}
+
+fn main() {
+    let argv: Vec<String> = std::env::args().collect();
+    if argv.get(1).map(|s| s.as_str()) == Some("--child") {
+        child_main(&argv[2..]);
+    }
+    let args = verif_common::Args::parse();
+    if args.property != "C18" {
+        verif_common::machinery_error(&format!("rt_config serves C18 only, not {:?}", args.property));
+    }
+    let exe = std::env::current_exe()
+        .unwrap_or_else(|e| verif_common::machinery_error(&format!("current_exe: {e}")));
+    let scratch = PathBuf::from(SCRATCH);
+    // an ancestor of the scratch area must not contain a stray configuration directory
+    for anc in scratch.ancestors() {
+        for n in ["configuration", "settings"] {
+            if anc != scratch && anc.join(n).exists() {
+                verif_common::machinery_error(&format!("stray {} would be found by the upward search", anc.join(n).display()));
+            }
+        }
+    }
+
+    if let Some(path) = &args.replay {
+        let doc = verif_common::load_replay(path);
+        let case: Case = serde_json::from_value(doc.get("case").cloned().unwrap_or(doc.clone()))
+            .unwrap_or_else(|e| verif_common::machinery_error(&format!("replay case unreadable: {e}")));
+        let root = scratch.join("replay");
+        let (obs, su) = run_case(&case, &root, &exe);
+        let exp = expect(&case);
+        let verdicts = judge(&case, &exp, &obs);
+        println!("case:     {}", serde_json::to_string(&case).unwrap());
+        println!("env:      {:?}", su.env);
+        println!("cwd:      {}", su.cwd.display());
+        println!("expected: {}", exp_json(&exp));
+        println!("observed: {}", obs.to_json());
+        let _ = std::fs::remove_dir_all(&root);
+        if verdicts.is_empty() {
+            println!("REPLAY: conforms");
+            std::process::exit(0);
+        }
+        for (k, w) in &verdicts {
+            println!("REPLAY: still violates [{k}] {w}");
+        }
+        std::process::exit(1);
+    }
+
+    // watchdog: the machinery itself must not hang
+    std::thread::spawn(|| {
+        std::thread::sleep(std::time::Duration::from_secs(40 * 60));
+        verif_common::machinery_error("rt_config watchdog: run exceeded 40 minutes");
+    });
+
+    let mut rep = verif_common::Reporter::from_args(&args);
+    let (mut cases, slices) = plan(args.tier);
+    verif_common::rotate_by_seed(&mut cases, args.seed);
+    let n_planned = cases.len();
+    let controls = control_cases();
+    let n_controls = controls.len();
+    cases.extend(controls);
+
+    if scratch.exists() {
+        let _ = std::fs::remove_dir_all(&scratch);
+    }
+    std::fs::create_dir_all(&scratch)
+        .unwrap_or_else(|e| verif_common::machinery_error(&format!("mkdir {SCRATCH}: {e}")));
+
+    let next = AtomicUsize::new(0);
+    let mut results: Vec<Option<Observed>> = vec![None; cases.len()];
+    let chunks: Vec<Vec<(usize, Observed)>> = std::thread::scope(|s| {
+        let handles: Vec<_> = (0..WORKERS)
+            .map(|w| {
+                let cases = &cases;
+                let next = &next;
+                let exe = &exe;
+                let root = scratch.join(format!("w{w}"));
+                s.spawn(move || {
+                    let mut local = Vec::new();
+                    loop {
+                        let i = next.fetch_add(1, Ordering::Relaxed);
+                        if i >= cases.len() {
+                            break;
+                        }
+                        let (obs, _) = run_case(&cases[i], &root, exe);
+                        local.push((i, obs));
+                    }
+                    let _ = std::fs::remove_dir_all(&root);
+                    local
+                })
+            })
+            .collect();
+        handles
+            .into_iter()
+            .map(|h| h.join().unwrap_or_else(|_| verif_common::machinery_error("worker thread panicked")))
+            .collect()
+    });
+    for c in chunks {
+        for (i, o) in c {
+            results[i] = Some(o);
+        }
+    }
+
+    // ---- judge, count ----
+    let mut samples = verif_common::Samples::new(14);
+    let mut sample_kinds: BTreeSet<String> = BTreeSet::new();
+    let mut outcome_hist: BTreeMap<String, usize> = BTreeMap::new();
+    let mut branch_hist: BTreeMap<String, usize> = BTreeMap::new();
+    let mut factor_hist: BTreeMap<String, usize> = BTreeMap::new();
+    let mut winner_hist: BTreeMap<String, usize> = BTreeMap::new();
+    let mut missing_obs: BTreeMap<String, usize> = BTreeMap::new();
+    let mut split_obs: BTreeMap<String, usize> = BTreeMap::new();
+    let mut nontrivial: BTreeSet<&Case> = BTreeSet::new();
+    let mut distinct_assign: BTreeSet<[u8; 3]> = BTreeSet::new();
+    let mut conforming = 0usize;
+    let mut reported_keys: BTreeSet<String> = BTreeSet::new();
+    let root = scratch.join("recheck");
+    for (i, case) in cases.iter().enumerate() {
+        let obs = results[i].clone().unwrap_or_else(|| verif_common::machinery_error("case without result"));
+        let exp = expect(case);
+        if case.control_unknown_env {
+            // machinery control: deny_unknown_fields must be effective for unknown PX_ keys,
+            // otherwise the PX_PROFILE check on that target would be vacuous
+            match &obs {
+                Observed::Err { chain } if err_class(chain) == "unknown-field" => {
+                    *branch_hist.entry("control:unknown-env-key-rejected-by-deny_unknown_fields".into()).or_default() += 1;
+                }
+                other => verif_common::machinery_error(&format!(
+                    "control failed: PX_ZZZ=1 with a deny_unknown_fields target gave {}",
+                    other.to_json()
+                )),
+            }
+            continue;
+        }
+        distinct_assign.insert(case.assign);
+        for (f, v) in [
+            ("profile", json!(case.profile)),
+            ("pmode", json!(case.pmode)),
+            ("dmode", json!(case.dmode)),
+            ("target", json!(case.target)),
+            ("files", json!(case.files)),
+        ] {
+            *factor_hist.entry(format!("{f}={}", v.as_str().unwrap_or("?"))).or_default() += 1;
+        }
+        let branch = match &exp {
+            Expect::MustErr(r) => format!("must-err:{r}"),
+            Expect::MustOk(_) => "must-ok".to_string(),
+            Expect::ErrOrOk(_) => format!("missing-file-weak-oracle:{}", json!(case.files).as_str().unwrap_or("?")),
+            Expect::SplitEither { .. } => "split-dir-either-reading".to_string(),
+        };
+        *branch_hist.entry(branch.clone()).or_default() += 1;
+        let oc = match &obs {
+            Observed::Ok { .. } => "ok".to_string(),
+            Observed::Err { chain } => format!("err:{}", err_class(chain)),
+            Observed::Panic { .. } => "panic".to_string(),
+        };
+        *outcome_hist.entry(oc.clone()).or_default() += 1;
+        // non-trivial: precedence had to decide between >= 2 sources for some key, or an error is forced
+        let collides = case.assign.iter().any(|b| b.count_ones() >= 2);
+        if collides || matches!(exp, Expect::MustErr(_)) {
+            nontrivial.insert(case);
+        }
+        if let (Expect::MustOk(want), Observed::Ok { .. }) = (&exp, &obs) {
+            for k in 0..3 {
+                *winner_hist
+                    .entry(format!("{}<-{}(of {})", KEYS[k], tag_of(k, &want[k]), sources_of(case.assign[k]).join("+")))
+                    .or_default() += 1;
+            }
+        }
+        if matches!(exp, Expect::ErrOrOk(_)) {
+            *missing_obs
+                .entry(format!("{}:{}", json!(case.files).as_str().unwrap_or("?"), oc))
+                .or_default() += 1;
+        }
+        if let (Expect::SplitEither { docs, code }, Observed::Ok { vals, .. }) = (&exp, &obs) {
+            if docs != code {
+                let k = if vals == code {
+                    "profile-file-taken-from-farther-directory(code reading)"
+                } else if vals == docs {
+                    "farther-directory-ignored(docs reading)"
+                } else {
+                    "mixed"
+                };
+                *split_obs.entry(k.into()).or_default() += 1;
+            } else {
+                *split_obs.entry("readings-indistinguishable".into()).or_default() += 1;
+            }
+        }
+        let verdicts = judge(case, &exp, &obs);
+        if verdicts.is_empty() {
+            conforming += 1;
+            let kind = format!("{branch}/{oc}");
+            if sample_kinds.insert(kind) {
+                let su = setup(case, &root);
+                samples.push(|| replay_doc(case, &su, &exp, &obs));
+            }
+            continue;
+        }
+        // determinism: re-execute once before reporting (only the first case of every key is
+        // written out by the Reporter, so only that one needs the re-execution)
+        let fresh = verdicts.iter().any(|(k, _)| !reported_keys.contains(k));
+        if !fresh {
+            for (key, what) in verdicts {
+                rep.violation(&key, &what, Value::Null);
+            }
+            continue;
+        }
+        for (k, _) in &verdicts {
+            reported_keys.insert(k.clone());
+        }
+        let (obs2, su) = run_case(case, &root, &exe);
+        if obs2 != obs {
+            verif_common::machinery_error(&format!(
+                "nondeterministic outcome for case {}: first {}, then {}",
+                serde_json::to_string(case).unwrap(),
+                obs.to_json(),
+                obs2.to_json()
+            ));
+        }
+        for (key, what) in verdicts {
+            let what = format!("{what} — case {}", serde_json::to_string(case).unwrap());
+            rep.violation(&key, &what, replay_doc(case, &su, &exp, &obs));
+        }
+    }
+    let _ = std::fs::remove_dir_all(&scratch);
+
+    let evaluations = n_planned;
+    let coverage = json!({
+        "evaluations": evaluations,
+        "distinct_nontrivial": nontrivial.len(),
+        "exhaustive": true,
+        "rule": "Alphabet: keys {a, b.c, b.d} (b.* nested: YAML mapping / PX_B__C, PX_B__D), each key assigned to a subset of {base.yml, <profile>.yml, PX_ env} (8^3 = 512 assignments) with source-tagged distinct values (a-base/a-profile/a-env, c-*, 11/22/33); profile in {dev, prod} (enum deriving ConfigProfile with #[px(profile=..)]); profile supply in {PX_PROFILE valid, .profile() with PX_PROFILE unset / set to the other profile / set to an invalid name} plus error modes {PX_PROFILE unset, =staging, =empty, no .profile()}; directory in {default `configuration` in cwd, named `settings` in cwd, default in parent of cwd, named in grandparent, absolute via .configuration_dir()}; target in {all-Option, required, deny_unknown_fields, probe struct with a field named `profile`}; file presence in {both files present (with a decoy directory holding different values one search step further, plus the other profile's file and staging.yml with different values), profile file missing, base file missing, both missing, directory missing, split directory}. Bound: thorough = the full product of the factors per family; quick = the union of the slices listed under `slices` (each slice keeps all compatible assignments and fixes the factors named in its label). Every case runs the real ConfigLoader::load in a fresh child process with env_clear + only the case's PX_ variables and a controlled cwd (the child echoes its environment and cwd, verified). Oracle (reference model `expect`): per key env > profile file > base file, None/absent if nowhere; required target with a key nowhere => Err; no .profile() and PX_PROFILE unset/invalid/empty => Err; .profile(p) wins over PX_PROFILE; values of the decoy directory / other profile / staging file never surface; PX_PROFILE never fails a deny_unknown_fields struct nor populates a field named `profile`; missing file/directory: weak oracle (Err accepted, Ok must still follow precedence over the existing sources); split directory: either reading accepted (observation only). Non-trivial = precedence had to choose between >= 2 sources for at least one key, or an error is forced by the property; distinct = distinct Case tuples (counted in a set).",
+        "slices": slices,
+        "distinct_assignments_reached": distinct_assign.len(),
+        "control_cases": n_controls,
+        "conforming_cases": conforming,
+        "child_processes_spawned": SPAWNED.load(Ordering::Relaxed),
+        "parallel_children": WORKERS,
+        "factor_value_counts": factor_hist,
+        "oracle_branch_counts": branch_hist,
+        "outcome_histogram": outcome_hist,
+        "verified_winner_histogram(key<-winning source(of defining sources))": winner_hist,
+        "missing_file_observations": missing_obs,
+        "split_directory_observations": split_obs,
+        "caps_hit": [],
+        "samples": samples.items,
+    });
+    let code = rep.finish(
+        "exploration",
+        coverage,
+        &[
+            "Values are strings for a and b.c and an unsigned integer for b.d; other value types (lists, booleans, maps set as a whole through one env variable) are not enumerated.",
+            "Depth of nesting is 2 (b.c, b.d); the `__` separator is exercised with exactly one level.",
+            "A missing <profile>.yml / base.yml / directory is NOT asserted to be an error: neither the property text ('missing profile' = PX_PROFILE not supplied) nor the guide documents it as one; observed outcomes are recorded under missing_file_observations.",
+            "The split-directory family is an observation (docs: search stops at the first matching directory; figment searches per file), not part of the verdict.",
+            "Profile names outside the enum are represented by `staging` and the empty string.",
+        ],
+    );
+    std::process::exit(code);
+}
